@@ -87,6 +87,9 @@ func prioCheck(t *bfe_http2.VerifH2libTree, n int, want prioSnap, op prioOp) (si
 		} else if exists {
 			gotSt = "closed"
 		}
+		if exists && !open && !t.StateClosed(id) {
+			return "", "", fmt.Sprintf("op %+v: stream %d left the map without state == stateClosed", op, id)
+		}
 		if gotSt != wantSt || (exists && got != want.Par[i]) {
 			return "", "", fmt.Sprintf("op %+v: stream %d status/parent real=%s/%d model=%s/%d (real parents %v)",
 				op, id, gotSt, got, wantSt, want.Par[i], par)
